@@ -194,6 +194,28 @@ func hostileMatrix(idx int) (string, bool) {
 	return fmt.Sprintf(f, args[:n]...), true
 }
 
+var c05Keywords = []string{"if", "else", "while", "for", "return", "yield", "true", "false"}
+var c05KeywordForms = []string{
+	"%s = 1", "(%s) -> 1", "%s(1)", "for %s <- fromto(0, 2) 1", "for hv, %s <- fromto(0, 2), fromto(0, 2) hv", "{\n hf = (p, %s) -> p\n hf(1, 2)\n}",
+	"%s", "[%s]", "hv = %s", "%s + 1", "{\n hf = () -> %s\n hf()\n}", "{\n %s = 2\n %s\n}", "hf = (%s) -> %s", "%s[0]", "#%s", "for hv <- %s hv",
+}
+
+// c05Text: a text that the parser accepts must run without aborting the interpreter, whether the harness's own
+// syntax tree can express it or not.
+func c05Text(src string, repl bool, fam string) core.Result {
+	nodes, perr, pan, hang, _, _ := calcrun.Parse(src)
+	if perr != nil || pan != nil || hang != "" || len(nodes) != 1 {
+		return core.Result{Verdict: core.Dropped, Reason: fam + " text not accepted by the parser"}
+	}
+	n0 := calcrun.FromNode(nodes[0])
+	if d := ast.Denotable(n0); d != "" {
+		// the parser accepted a text the harness's syntax tree cannot even express (it is outside the
+		// documented grammar): the accepted text itself must still not abort the interpreter
+		return hostileRaw(src, repl, d)
+	}
+	return hostileRun("C05", []ast.Node{n0}, repl, fam, "")
+}
+
 func hostileMatrixCount() int {
 	nv := len(hostileVals)
 	n := 0
@@ -208,22 +230,18 @@ func hostileMatrixCount() int {
 func init() {
 	register(&core.Property{
 		ID:          "C05",
-		Rule:        "programs: (1) grammar-random, ill-typed trees (every node kind in every operand and statement position, huge and boundary constants, builtin names as variables) in sessions of 1..5 statements, (2) an enumerated matrix of " + fmt.Sprint(len(hostileVals)) + " hostile values (undefined name, function, boundary ints, infinities/NaN, bools, strings, nested arrays, closures) in every pair x all 17 binary operators and in 37 statement/builtin positions (condition, index, slice bound, callee, argument count, iterator, yield/return operand, unary operand ...), (3) token-level mutations of corpus programs that still parse, (4) the typed sessions of C01 with planted faults; each in REPL and script compile mode. non-trivial = at least one statement executed to a value or a runtime error; distinct by session text and mode.",
+		Rule:        "programs: (1) grammar-random, ill-typed trees (every node kind in every operand and statement position, huge and boundary constants, builtin names as variables) in sessions of 1..5 statements, (2) an enumerated matrix of " + fmt.Sprint(len(hostileVals)) + " hostile values (undefined name, function, boundary ints, infinities/NaN, bools, strings, nested arrays, closures) in every pair x all 17 binary operators and in 37 statement/builtin positions (condition, index, slice bound, callee, argument count, iterator, yield/return operand, unary operand ...), (2b) every reserved word in 16 name positions, (3) token-level mutations of corpus programs that still parse, (4) the typed sessions of C01 with planted faults; each in REPL and script compile mode. non-trivial = at least one statement executed to a value or a runtime error; distinct by session text and mode.",
 		Assumptions: []string{"programs that hit the VM step limit without a reference verdict (ill-typed infinite loops) are counted inconclusive/diverged, programs whose values outgrow 10^6 elements are dropped before reaching the VM, a worker stopped by the heap guard is inconclusive/oom", "exit() is not called"},
 		Families: []core.Family{
 			{Name: "matrix", Count: func(string) int { return hostileMatrixCount() * 2 }, Run: func(_ *core.Ctx, idx int) core.Result {
 				src, _ := hostileMatrix(idx / 2)
-				nodes, perr, pan, hang, _, _ := calcrun.Parse(src)
-				if perr != nil || pan != nil || hang != "" || len(nodes) != 1 {
-					return core.Result{Verdict: core.Dropped, Reason: "matrix text not accepted by the parser"}
-				}
-				n0 := calcrun.FromNode(nodes[0])
-				if d := ast.Denotable(n0); d != "" {
-					// the parser accepted a text the harness's syntax tree cannot even express (it is outside the
-					// documented grammar): the accepted text itself must still not abort the interpreter
-					return hostileRaw(src, idx%2 == 0, d)
-				}
-				return hostileRun("C05", []ast.Node{n0}, idx%2 == 0, "matrix", "")
+				return c05Text(src, idx%2 == 0, "matrix")
+			}},
+			{Name: "keywords", Count: func(string) int { return len(c05Keywords) * len(c05KeywordForms) * 2 }, Run: func(_ *core.Ctx, idx int) core.Result {
+				// every reserved word in every position where a name can stand: whatever the parser lets through must run
+				k := c05Keywords[(idx/2)%len(c05Keywords)]
+				f := c05KeywordForms[(idx/2)/len(c05Keywords)]
+				return c05Text(strings.ReplaceAll(f, "%s", k), idx%2 == 0, "keywords")
 			}},
 			{Name: "random", Count: countFn(50000, 2000000), Run: func(ctx *core.Ctx, idx int) core.Result {
 				r := core.CaseRng(ctx.Seed, "C05/random", idx)
